@@ -17,9 +17,19 @@ import (
 //   keys=<type>:<value>,...            key id = position; types int,int8..uint64,string
 //   ld=<dur>.<hasval>.<err>,...|...    per key: behaviour of the 1st, 2nd, ... loader invocation
 //                                      (the last entry repeats); value = (kid+1)*100000+j+1 or nil
+//   opts=<o>,<o>,...|-                 the option list passed to NewCache, in order: E<normal>:<error> = WithExpire,
+//                                      P<n> = WithParallel, J<n> = WithJobChanSize; "-" = NewCache() without options.
+//                                      Without an opts token: WithExpire(ne,ee), WithParallel(par), WithJobChanSize(jcs).
+//                                      ne/ee/par/jcs are then only what the caller EXPECTS; the harness does not use them.
 //   acts=<t>/<kind>/<args>;...         L/k  Load            G/k  Cache.Get2     g/k  Cache.Get1
 //                                      S/k/v/e  Set         W/a  Future.Get2 on the Future that
 //                                      action a's Load returned      w/a  Future.Get1 on it
+//                                      C/0  a garbage collection while the cache is referenced and in use: runtime.GC(),
+//                                           1 ns of virtual time (the finalizer goroutine runs), runtime.GC()
+//                                      D/0  the script drops its only reference to the cache (no cache call may follow), then
+//                                           the same two collections: Futures already obtained must still resolve
+// Tag "ftm": several scripts separated by the token "||": one cache per script, created in that order in ONE process,
+// all scripts then run concurrently on the same virtual time line; the logs are joined by " || ".
 // At virtual instant end every Future returned by a Load is awaited once more (entries "rf").
 // Log entries (one line per trial, trials joined by " ## "), stamps in virtual ns since start:
 //   c,a,t         action a calls          rL,a,t,fut   Load returned Future number fut
@@ -27,6 +37,7 @@ import (
 //   ls,k,j,t      loader invocation j of key k starts        le,k,j,t,v,e   ... returns (v,e)
 //   rf,a,t,v,e    final await of action a's Future
 //   sh,k,idx      loom shard index of key k
+//   rC,a,t        collection action a done
 //   HANG          the virtual-time watchdog fired with calls outstanding;  u,a = unfinished action
 
 type codeErr int
@@ -118,6 +129,8 @@ type script struct {
 	par, jcs        int
 	trials          int
 	keys            []any
+	opts            []cachex.Option
+	hasOpts         bool
 	ld              [][]ldSpec
 	acts            []action
 }
@@ -153,6 +166,24 @@ func parseScript(toks []string) *script {
 			sc.jcs = atoi(v)
 		case "trials":
 			sc.trials = atoi(v)
+		case "opts":
+			sc.hasOpts = true
+			if v == "-" || v == "" {
+				break
+			}
+			for _, o := range strings.Split(v, ",") {
+				switch o[0] {
+				case 'E':
+					j := strings.IndexByte(o, ':')
+					sc.opts = append(sc.opts, cachex.WithExpire(time.Duration(atoi(o[1:j])), time.Duration(atoi(o[j+1:]))))
+				case 'P':
+					sc.opts = append(sc.opts, cachex.WithParallel(atoi(o[1:])))
+				case 'J':
+					sc.opts = append(sc.opts, cachex.WithJobChanSize(atoi(o[1:])))
+				default:
+					panic("bad option " + o)
+				}
+			}
 		case "keys":
 			for _, kv := range strings.Split(v, ",") {
 				j := strings.IndexByte(kv, ':')
@@ -195,10 +226,26 @@ func sleepUntil(target time.Time) {
 	}
 }
 
+func newCache(sc *script) cachex.Cache {
+	if sc.hasOpts {
+		return cachex.NewCache(sc.opts...)
+	}
+	return cachex.NewCache(cachex.WithExpire(sc.ne, sc.ee), cachex.WithParallel(sc.par), cachex.WithJobChanSize(sc.jcs))
+}
+
+func collect() {
+	runtime.GC()
+	time.Sleep(time.Nanosecond)
+	runtime.GC()
+}
+
 func runTrial(sc *script) string {
+	return runTrialOn(sc, newCache(sc), time.Now())
+}
+
+func runTrialOn(sc *script, cache cachex.Cache, start time.Time) string {
 	var mu sync.Mutex
 	var log []string
-	start := time.Now()
 	stamp := func() int64 { return int64(time.Since(start)) }
 	emit := func(format string, args ...any) { // caller holds mu
 		log = append(log, fmt.Sprintf(format, args...))
@@ -208,8 +255,6 @@ func runTrial(sc *script) string {
 		idx, _ := sharding.GetShardingIndex(key)
 		emit("sh,%d,%d", k, idx)
 	}
-
-	cache := cachex.NewCache(cachex.WithExpire(sc.ne, sc.ee), cachex.WithParallel(sc.par), cachex.WithJobChanSize(sc.jcs))
 
 	inv := make([]int, len(sc.keys))
 	loaders := make([]cachex.Loader, len(sc.keys))
@@ -314,6 +359,25 @@ func runTrial(sc *script) string {
 				emit("rS,%d,%d", i, stamp())
 				finished[i] = true
 				mu.Unlock()
+			case "C":
+				mu.Lock()
+				emit("c,%d,%d", i, stamp())
+				mu.Unlock()
+				collect()
+				mu.Lock()
+				emit("rC,%d,%d", i, stamp())
+				finished[i] = true
+				mu.Unlock()
+			case "D":
+				mu.Lock()
+				emit("c,%d,%d", i, stamp())
+				cache = nil
+				mu.Unlock()
+				collect()
+				mu.Lock()
+				emit("rC,%d,%d", i, stamp())
+				finished[i] = true
+				mu.Unlock()
 			case "W", "w":
 				<-loadDone[a.k]
 				mu.Lock()
@@ -359,6 +423,7 @@ func runTrial(sc *script) string {
 	}
 	res := strings.Join(log, " ")
 	mu.Unlock()
+	runtime.KeepAlive(&cache) // the script's reference to the cache lives until here (unless a D action dropped it)
 	// let the cache's finalizer stop its ticker and workers
 	cache = nil
 	loaders = nil
@@ -368,6 +433,53 @@ func runTrial(sc *script) string {
 	runtime.GC()
 	time.Sleep(time.Nanosecond)
 	return res
+}
+
+func splitScripts(toks []string) [][]string {
+	var out [][]string
+	var cur []string
+	for _, t := range toks {
+		if t == "||" {
+			out = append(out, cur)
+			cur = nil
+		} else if t != "ftc" {
+			cur = append(cur, t)
+		}
+	}
+	return append(out, cur)
+}
+
+func init() {
+	register("ftm", func(toks []string) string {
+		var scs []*script
+		for _, part := range splitScripts(toks) {
+			scs = append(scs, parseScript(part))
+		}
+		caches := make([]cachex.Cache, len(scs))
+		for i, sc := range scs { // creation order = script order
+			caches[i] = newCache(sc)
+		}
+		start := time.Now()
+		outs := make([]string, len(scs))
+		var wg sync.WaitGroup
+		for i := range scs {
+			i := i
+			c := caches[i]
+			caches[i] = nil
+			wg.Add(1)
+			go func() {
+				defer wg.Done()
+				defer func() {
+					if r := recover(); r != nil {
+						outs[i] = "PANIC," + strings.ReplaceAll(strings.ReplaceAll(fmt.Sprint(r), " ", "_"), ",", "_")
+					}
+				}()
+				outs[i] = runTrialOn(scs[i], c, start)
+			}()
+		}
+		wg.Wait()
+		return strings.Join(outs, " || ")
+	})
 }
 
 func init() {
